@@ -75,6 +75,8 @@ type Outcome struct {
 	Forks      map[string]int
 	Notes      []string
 	Model      map[string]uint64 // model of the full path condition (filled on request)
+	Choices    []int             // every n-way engine choice taken on this path, in order (vrtChoose, map order, schedule)
+	Preempts   int               // preemptive context switches taken on this path
 }
 
 // Machine executes one path.
@@ -111,6 +113,16 @@ type Machine struct {
 	tokRead *segState // token table for property evaluation
 	inAtomic bool
 	redirects map[string]value // tsgen: callee name -> harness summary
+
+	// preemptive scheduling (Params["preempt"] > 0): every visible operation
+	// (sync, sync/atomic, channel op, go) is a schedule point at which, while
+	// the preemption budget lasts, the engine forks over "continue" and "switch
+	// to runnable goroutine g"; at blocking points and goroutine ends the next
+	// goroutine is chosen among all runnable ones (no budget cost).
+	preemptMode bool
+	preemptLeft int
+	// concrete replay (no solver): inputs and choices come from a counterexample
+	conc *concreteRun
 
 	// goroutines
 	gs     []*goroutine
@@ -399,10 +411,23 @@ func (m *Machine) choose(n int, why string) int {
 	if n <= 1 {
 		return 0
 	}
+	if m.conc != nil {
+		c := 0
+		if m.conc.cpos < len(m.conc.choices) {
+			c = m.conc.choices[m.conc.cpos]
+		}
+		m.conc.cpos++
+		if c >= n {
+			panic(pathEnd{"mismatch", fmt.Sprintf("concrete replay: choice %d out of %d at %s", c, n, why)})
+		}
+		m.out.Choices = append(m.out.Choices, c)
+		return c
+	}
 	if d, ok := m.nextDecision(); ok {
 		if d.Kind != 'n' {
 			panic(engineFault{fmt.Sprintf("trail mismatch at %d: want choose, have %c (%s)", m.pos-1, d.Kind, why)})
 		}
+		m.out.Choices = append(m.out.Choices, d.Choice)
 		return d.Choice
 	}
 	for i := 1; i < n; i++ {
@@ -416,13 +441,31 @@ func (m *Machine) choose(n int, why string) int {
 		m.queueAlt(Decision{Kind: 'n', Choice: i, Known: true, Model: cp})
 	}
 	m.record(Decision{Kind: 'n', Choice: 0})
+	m.out.Choices = append(m.out.Choices, 0)
 	return 0
+}
+
+// concreteRun drives a solver-free re-execution of one counterexample.
+type concreteRun struct {
+	inputs  []ReplayInput
+	ipos    int
+	choices []int
+	cpos    int
 }
 
 // ---------------------------------------------------------------------------
 // inputs
 
 func (m *Machine) newInput(kind string, k types.BasicKind) value {
+	if m.conc != nil {
+		var v uint64
+		if m.conc.ipos < len(m.conc.inputs) {
+			v = m.conc.inputs[m.conc.ipos].Val
+		}
+		m.conc.ipos++
+		m.inputs = append(m.inputs, Input{Name: fmt.Sprintf("in%d_%s", len(m.inputs), kind), Kind: kind})
+		return fromBits(k, v)
+	}
 	name := fmt.Sprintf("in%d_%s", len(m.inputs), kind)
 	t := m.ctx.Var(name, kindWidth(k))
 	m.inputs = append(m.inputs, Input{Name: name, Kind: kind, Term: t})
@@ -430,6 +473,23 @@ func (m *Machine) newInput(kind string, k types.BasicKind) value {
 }
 
 func (m *Machine) newInputBytes(kind string, n int) []value {
+	if m.conc != nil {
+		var bs []int
+		if m.conc.ipos < len(m.conc.inputs) {
+			bs = m.conc.inputs[m.conc.ipos].Bytes
+		}
+		m.conc.ipos++
+		m.inputs = append(m.inputs, Input{Name: fmt.Sprintf("in%d_%s", len(m.inputs), kind), Kind: kind, Len: n})
+		out := make([]value, n)
+		for i := range out {
+			var b uint8
+			if i < len(bs) {
+				b = uint8(bs[i])
+			}
+			out[i] = b
+		}
+		return out
+	}
 	idx := len(m.inputs)
 	in := Input{Name: fmt.Sprintf("in%d_%s", idx, kind), Kind: kind, Len: n}
 	out := make([]value, n)
@@ -469,6 +529,10 @@ func (m *Machine) assertV(cond value, name, msg string) {
 }
 
 func (m *Machine) violate(name, msg string, model map[string]uint64) {
+	if m.conc != nil {
+		m.out.Violation = &Violation{Name: name, Msg: msg, Model: map[string]uint64{}}
+		panic(pathEnd{"violation", name + ": " + msg})
+	}
 	if model == nil {
 		r, mod := m.solver.Check(nil, m.inputVars())
 		if r == smt.Unsat {
@@ -561,14 +625,23 @@ func (m *Machine) schedule(exiting bool) {
 	var next *goroutine
 	for {
 		n = len(m.gs)
+		var cands []*goroutine
 		for k := 0; k < n; k++ {
 			g := m.gs[(start+k)%n]
 			if g.done || g == cur {
 				continue
 			}
 			if g.ready == nil || g.ready() {
-				next = g
-				break
+				cands = append(cands, g)
+				if !m.preemptMode {
+					break
+				}
+			}
+		}
+		if len(cands) > 0 {
+			next = cands[0]
+			if len(cands) > 1 {
+				next = cands[m.choose(len(cands), "sched-next")]
 			}
 		}
 		if next != nil {
@@ -670,6 +743,42 @@ func (m *Machine) yieldOnce() {
 	}
 }
 
+// schedPoint is called before every visible operation. In preemptive mode it
+// may hand the baton to another runnable goroutine (an n-way engine choice
+// recorded in the trail); the preempted goroutine stays runnable.
+func (m *Machine) schedPoint(what string) {
+	if !m.preemptMode || m.preemptLeft <= 0 || m.seg != nil || m.tsSetup != nil || m.cur == nil {
+		return
+	}
+	cur := m.cur
+	var others []*goroutine
+	for _, g := range m.gs {
+		if g != cur && !g.done && (g.ready == nil || g.ready()) {
+			others = append(others, g)
+		}
+	}
+	if len(others) == 0 {
+		return
+	}
+	c := m.choose(1+len(others), "sched-preempt")
+	if c == 0 {
+		return
+	}
+	m.preemptLeft--
+	m.out.Preempts++
+	next := others[c-1]
+	cur.ready = func() bool { return true }
+	m.cur = next
+	next.ready = nil
+	next.wake <- struct{}{}
+	select {
+	case <-cur.wake:
+	case <-m.killed:
+		panic(pathEnd{"killed", ""})
+	}
+	cur.ready = nil
+}
+
 // scheduleAwayFrom runs some other runnable goroutine; returns when cur is resumed.
 func (m *Machine) scheduleAwayFrom(cur *goroutine) {
 	m.schedule(false)
@@ -699,6 +808,7 @@ func (m *Machine) newChan(n int, elemT types.Type) *vchan {
 }
 
 func (m *Machine) chanSend(ch *vchan, v value) {
+	m.schedPoint("chan send")
 	if ch == nil {
 		m.block("send on nil chan", func() bool { return false })
 	}
@@ -722,6 +832,7 @@ func (ch *vchan) canRecv() bool {
 }
 
 func (m *Machine) chanRecv(ch *vchan) (value, bool) {
+	m.schedPoint("chan recv")
 	if m.seg != nil && ch != nil {
 		if !ch.shared {
 			panic(unsupported{"receive on a channel that is not registered with vrtSharedChan"})
@@ -784,6 +895,7 @@ func (m *Machine) plainErr(msg string) value {
 }
 
 func (m *Machine) doSelect(fr *frame, instr *ssa.Select) value {
+	m.schedPoint("select")
 	type cs struct {
 		ch   *vchan
 		send bool
